@@ -1,7 +1,8 @@
 #!/bin/bash
 # Builds the framework from files on disk only (offline) and warms the build cache.
 set -e
-cd /verif
+cd "$(dirname "$0")"
+export VERIF_ROOT="$PWD"
 export GOFLAGS=-mod=mod GOPROXY=off GOSUMDB=off GOTOOLCHAIN=local
 mkdir -p bin evidence .work
 go build -o bin/vinstr ./cmd/vinstr
